@@ -248,8 +248,8 @@ def write_replay(prop, plan, v, mopts, tag):
     return path
 
 
-def minimise_violation(prop, plan, v, cfg):
-    want = sig_of(v)
+def minimise_violation(prop, plan, v, cfg, want=None):
+    want = want or sig_of(v)
     mopts = cfg.get('mopts')
 
     def pred(p):
@@ -379,17 +379,22 @@ def run_check(prop, tier, budget=None, runs=None, seed=None, workers=None, no_mi
             rc = max(rc, 1)
             continue
         plan = gen.gen(cfg['profile'], sd, tier, cfg.get('gopts'))
+        full_sig = s
+        if v.get('variant'):
+            # a C06 violation under one enumerated fault: replay that fault, not the fault-free history
+            plan = engine.apply_variant(plan, v['variant'])
+            s = s.rsplit('@', 1)[0]
         r1 = engine.check_plan(plan, cfg.get('mopts'))
         r2 = engine.check_plan(plan, cfg.get('mopts'))
         again = any(sig_of(x) == s for x in r1['viol'])
         if r1['hash'] != r2['hash'] or not again:
             print('MACHINERY: violation %r of seed %d did not reproduce (hash %s vs %s)' %
-                  (s, sd, r1['hash'][:12], r2['hash'][:12]))
+                  (full_sig, sd, r1['hash'][:12], r2['hash'][:12]))
             rc = max(rc, 2)
             continue
         small = plan
         if not no_min and len(out_viol) < 6:
-            small, used = minimise_violation(prop, plan, v, cfg)
+            small, used = minimise_violation(prop, plan, v, cfg, want=s)
         rs = engine.check_plan(small, cfg.get('mopts'))
         vv = [x for x in rs['viol'] if sig_of(x) == s]
         if not vv:
